@@ -137,3 +137,395 @@ Proof.
   cbn [concatM]. rewrite (H O x x' eq_refl eq_refl).
   rewrite (IH l' ltac:(lia)); [reflexivity|]. intros j; exact (H (S j)).
 Qed.
+
+(* ---- 2. the element encoders --------------------------------------------------------------------------- *)
+Ltac inv_bind_as H x Hx := apply bind_ret_inv in H; destruct H as [x [Hx H]].
+
+Definition wf_in (x : txin) : Prop := length (ti_hash x) = 32%nat.
+Definition wf_tx (t : tx) : Prop := Forall wf_in (tx_ins t).
+Definition in_key (x : txin) : bytes * N * bytes * N := (ti_hash x, ti_index x, ti_script x, ti_seq x).
+
+Lemma stream_hash_wf x : wf_in x -> stream_hash (ti_hash x) = ti_hash x.
+Proof. unfold wf_in, stream_hash. intros H. apply firstn_all2. change gen06_hash_trunc with 32%nat. lia. Qed.
+
+Lemma stream_txin_pinj : pinj wf_in stream_txin in_key.
+Proof.
+  intros x x' p p' r r' Q Q' H H' E. unfold stream_txin in H, H'.
+  inv_bind_as H a Ha. inv_bind_as H s Hs. inv_bind_as H q Hq. injection H as <-.
+  inv_bind_as H' a' Ha'. inv_bind_as H' s' Hs'. inv_bind_as H' q' Hq'. injection H' as <-.
+  rewrite !stream_hash_wf in E by assumption. rewrite <- !app_assoc in E.
+  apply app_inj_len in E; [|unfold wf_in in *; lia]. destruct E as [Eh E].
+  destruct (write_le_pinj _ _ _ _ _ _ _ I I Ha Ha' E) as [Ei E1].
+  destruct (varstr_pinj _ _ _ _ _ _ I I Hs Hs' E1) as [Es E2].
+  destruct (write_le_pinj _ _ _ _ _ _ _ I I Hq Hq' E2) as [Eq E3].
+  unfold in_key. cbn beta in *. rewrite Eh, Ei, Es, Eq. auto.
+Qed.
+
+Lemma stream_txout_pinj : pinj any stream_txout (fun o => o).
+Proof.
+  intros o o' p p' r r' _ _ H H' E. unfold stream_txout in H, H'.
+  inv_bind_as H a Ha. inv_bind_as H s Hs. injection H as <-.
+  inv_bind_as H' a' Ha'. inv_bind_as H' s' Hs'. injection H' as <-.
+  rewrite <- !app_assoc in E.
+  destruct (write_le_pinj _ _ _ _ _ _ _ I I Ha Ha' E) as [Ea E1].
+  destruct (varstr_pinj _ _ _ _ _ _ I I Hs Hs' E1) as [Es E2].
+  destruct o, o'; cbn in *. subst. auto.
+Qed.
+
+Lemma stream_txout_nonempty o p : stream_txout o = Ret p -> p <> [].
+Proof.
+  unfold stream_txout. intros H. inv_bind_as H a Ha. inv_bind_as H s Hs. injection H as <-.
+  apply write_le_length in Ha. destruct a; [discriminate Ha|discriminate].
+Qed.
+
+Definition outpoint_key (x : txin) : bytes * N := (ti_hash x, ti_index x).
+
+Lemma prevout_entry_pinj : pinj wf_in prevout_entry outpoint_key.
+Proof.
+  intros x x' p p' r r' Q Q' H H' E. unfold prevout_entry in H, H'.
+  inv_bind_as H a Ha. injection H as <-. inv_bind_as H' a' Ha'. injection H' as <-.
+  rewrite <- !app_assoc in E.
+  apply app_inj_len in E; [|unfold wf_in in *; lia]. destruct E as [Eh E].
+  destruct (write_le_pinj _ _ _ _ _ _ _ I I Ha Ha' E) as [Ei E1].
+  unfold outpoint_key. cbn beta in *. rewrite Eh, Ei. auto.
+Qed.
+
+Lemma prevout_entry_nonempty x p : prevout_entry x = Ret p -> p <> [].
+Proof.
+  unfold prevout_entry. intros H. inv_bind_as H a Ha. injection H as <-.
+  apply write_le_length in Ha. destruct a; [discriminate Ha|]. destruct (ti_hash x); discriminate.
+Qed.
+
+Lemma sequence_entry_pinj : pinj any sequence_entry ti_seq.
+Proof. intros x x' p p' r r' _ _ H H' E. exact (write_le_pinj _ _ _ _ _ _ _ I I H H' E). Qed.
+
+Lemma sequence_entry_nonempty x p : sequence_entry x = Ret p -> p <> [].
+Proof. unfold sequence_entry. intros H. apply write_le_length in H. destruct p; [discriminate H|discriminate]. Qed.
+
+Lemma Forall_any {A} (l : list A) : Forall any l.
+Proof. apply Forall_forall. intros; exact I. Qed.
+
+(* a varint count followed by that many elements *)
+Lemma counted_pinj {A B} (Q : A -> Prop) (enc : A -> outcome bytes) (key : A -> B) :
+  pinj Q enc key ->
+  forall l l' c c' p p' r r', Forall Q l -> Forall Q l' ->
+    stream_varint (N.of_nat (length l)) = Ret c -> stream_varint (N.of_nat (length l')) = Ret c' ->
+    concatM enc l = Ret p -> concatM enc l' = Ret p' -> c ++ p ++ r = c' ++ p' ++ r' ->
+    map key l = map key l' /\ r = r'.
+Proof.
+  intros HP l l' c c' p p' r r' HQ HQ' Hc Hc' H H' E.
+  destruct (varint_pinj _ _ _ _ _ _ I I Hc Hc' E) as [HL E1].
+  exact (concatM_pinj_len Q enc key HP l l' p p' r r' ltac:(lia) HQ HQ' H H' E1).
+Qed.
+
+Definition tx_key (t : tx) := (tx_version t, map in_key (tx_ins t), tx_outs t, tx_lock t).
+
+(* Tx.hash(hash_type): equal hash inputs come from equal (witness-less) transactions and equal hash types *)
+Lemma hash_input_inj t t' ht ht' b :
+  wf_tx t -> wf_tx t' -> hash_input t ht = Ret b -> hash_input t' ht' = Ret b ->
+  tx_key t = tx_key t' /\ ht = ht'.
+Proof.
+  intros W W' H H'. unfold hash_input, stream_tx_nowit in H, H'.
+  inv_bind_as H b0 Hb. inv_bind_as H h Hh. injection H as <-.
+  inv_bind_as Hb v Hv. inv_bind_as Hb ci Hci. inv_bind_as Hb bi Hbi. inv_bind_as Hb co Hco.
+  inv_bind_as Hb bo Hbo. inv_bind_as Hb l Hl. injection Hb as <-.
+  inv_bind_as H' b0' Hb'. inv_bind_as H' h' Hh'. injection H' as E.
+  inv_bind_as Hb' v' Hv'. inv_bind_as Hb' ci' Hci'. inv_bind_as Hb' bi' Hbi'. inv_bind_as Hb' co' Hco'.
+  inv_bind_as Hb' bo' Hbo'. inv_bind_as Hb' l' Hl'. injection Hb' as <-.
+  assert (E0 : (v ++ ci ++ bi ++ co ++ bo ++ l) ++ h ++ [] = (v' ++ ci' ++ bi' ++ co' ++ bo' ++ l') ++ h' ++ [])
+    by (rewrite !app_nil_r; symmetry; exact E).
+  clear E. rewrite <- !app_assoc in E0.
+  destruct (write_le_pinj _ _ _ _ _ _ _ I I Hv Hv' E0) as [Ev E1].
+  destruct (counted_pinj wf_in stream_txin in_key stream_txin_pinj _ _ _ _ _ _ _ _ W W' Hci Hci' Hbi Hbi' E1) as [Ei E2].
+  destruct (counted_pinj any stream_txout (fun o => o) stream_txout_pinj _ _ _ _ _ _ _ _
+              (Forall_any _) (Forall_any _) Hco Hco' Hbo Hbo' E2) as [Eo E3].
+  destruct (write_le_pinj _ _ _ _ _ _ _ I I Hl Hl' E3) as [El E4].
+  destruct (write_le_pinj _ _ _ _ _ _ _ I I Hh Hh' E4) as [Eh _].
+  rewrite !map_id in Eo. unfold tx_key. cbn beta in *. rewrite Ev, Ei, Eo, El, Eh. auto.
+Qed.
+
+(* ---- 3. agreement on the committed fields, as a handful of facts ------------------------------------------ *)
+Definition agree (sv : sigversion) (ht : N) (idx : nat) (c c' : sctx) : Prop :=
+  forall fl, committed sv ht idx (has_output idx c) fl = true -> get idx fl c = get idx fl c'.
+
+Definition keep_seq (ht : N) : bool := negb (ht_none ht) && negb (ht_single ht).
+Definition live (sv : sigversion) (ht : N) (idx : nat) (c : sctx) : bool :=
+  negb (match sv with SV_legacy => ht_single ht && negb (has_output idx c) | SV_bip143 => false end).
+
+Definition same_at {A} (f : txin -> A) (c c' : sctx) (j : nat) : Prop :=
+  option_map f (nth_error (tx_ins (sc_tx c)) j) = option_map f (nth_error (tx_ins (sc_tx c')) j).
+
+Record facts (sv : sigversion) (ht : N) (idx : nat) (c c' : sctx) : Prop := mk_facts {
+  fx_live : live sv ht idx c = true ->
+    tx_version (sc_tx c) = tx_version (sc_tx c') /\ tx_lock (sc_tx c) = tx_lock (sc_tx c')
+    /\ sc_code c = sc_code c'
+    /\ (ht_acp ht = false -> length (tx_ins (sc_tx c)) = length (tx_ins (sc_tx c')))
+    /\ (forall j, j = idx \/ ht_acp ht = false -> same_at ti_hash c c' j /\ same_at ti_index c c' j)
+    /\ (forall j, j = idx \/ (ht_acp ht = false /\ keep_seq ht = true) -> same_at ti_seq c c' j);
+  fx_amount : sv = SV_bip143 -> sc_amount c = sc_amount c';
+  fx_outs : if ht_none ht then True
+            else if ht_single ht then
+              has_output idx c = has_output idx c'
+              /\ nth_error (tx_outs (sc_tx c)) idx = nth_error (tx_outs (sc_tx c')) idx
+            else tx_outs (sc_tx c) = tx_outs (sc_tx c') }.
+
+Lemma in_field_same {A} (f : txin -> A) (wrap : A -> fval) c c' j :
+  same_at f c c' j -> in_field f wrap c j = in_field f wrap c' j.
+Proof.
+  unfold same_at, in_field. destruct (nth_error _ j), (nth_error _ j); cbn; intros H; try discriminate; [|reflexivity].
+  injection H as ->. reflexivity.
+Qed.
+
+Lemma same_of_in_field {A} (f : txin -> A) (wrap : A -> fval) c c' j :
+  (forall a b, wrap a = wrap b -> a = b) -> (forall a, wrap a <> V_missing) ->
+  in_field f wrap c j = in_field f wrap c' j -> same_at f c c' j.
+Proof.
+  intros Hi Hm. unfold same_at, in_field. destruct (nth_error _ j), (nth_error _ j); cbn; intros H.
+  - f_equal. now apply Hi.
+  - exfalso. exact (Hm _ H).
+  - exfalso. symmetry in H. exact (Hm _ H).
+  - reflexivity.
+Qed.
+
+Lemma nth_error_ext {A} (l l' : list A) : (forall j, nth_error l j = nth_error l' j) -> l = l'.
+Proof.
+  revert l'; induction l as [|x l IH]; intros [|x' l'] H.
+  - reflexivity.
+  - specialize (H O). discriminate.
+  - specialize (H O). discriminate.
+  - pose proof (H O) as H0. cbn in H0. injection H0 as ->. f_equal. apply IH. intros j. exact (H (S j)).
+Qed.
+
+Lemma txout_eta o : mk_txout (to_amount o) (to_script o) = o.
+Proof. destruct o; reflexivity. Qed.
+
+Lemma out_fields_nth c c' k :
+  out_field to_amount V_n c k = out_field to_amount V_n c' k ->
+  out_field to_script V_bytes c k = out_field to_script V_bytes c' k ->
+  nth_error (tx_outs (sc_tx c)) k = nth_error (tx_outs (sc_tx c')) k.
+Proof.
+  unfold out_field. destruct (nth_error _ k) as [o|], (nth_error _ k) as [o'|]; intros H1 H2; try discriminate; [|reflexivity].
+  injection H1 as H1. injection H2 as H2. rewrite <- (txout_eta o), <- (txout_eta o'), H1, H2. reflexivity.
+Qed.
+
+Lemma agree_facts sv ht idx c c' : agree sv ht idx c c' -> facts sv ht idx c c'.
+Proof.
+  intros H. unfold agree in H.
+  assert (HL : live sv ht idx c = true -> forall fl, committed sv ht idx (has_output idx c) fl =
+     match fl with
+     | F_version | F_lock_time | F_script_code => true
+     | F_in_count => negb (ht_acp ht)
+     | F_prev_hash j | F_prev_index j => Nat.eqb j idx || negb (ht_acp ht)
+     | F_sequence j => Nat.eqb j idx || (negb (ht_acp ht) && negb (ht_none ht) && negb (ht_single ht))
+     | _ => committed sv ht idx (has_output idx c) fl
+     end).
+  { intros HLv fl. unfold committed. unfold live in HLv. destruct fl; try reflexivity; rewrite HLv; reflexivity. }
+  split.
+  - intros HLv. specialize (HL HLv).
+    refine (conj _ (conj _ (conj _ (conj _ (conj _ _))))).
+    + pose proof (H F_version) as X. rewrite HL in X. specialize (X eq_refl). cbn in X. congruence.
+    + pose proof (H F_lock_time) as X. rewrite HL in X. specialize (X eq_refl). cbn in X. congruence.
+    + pose proof (H F_script_code) as X. rewrite HL in X. specialize (X eq_refl). cbn in X. congruence.
+    + intros Ha. pose proof (H F_in_count) as X. rewrite HL, Ha in X. specialize (X eq_refl). cbn in X. congruence.
+    + intros j Hj.
+      assert (Hc : Nat.eqb j idx || negb (ht_acp ht) = true).
+      { destruct Hj as [Hj | Hj]; rewrite Hj; [rewrite Nat.eqb_refl; reflexivity|apply orb_true_r]. }
+      split.
+      * pose proof (H (F_prev_hash j)) as X. rewrite HL in X.
+        specialize (X Hc). cbn in X. eapply same_of_in_field; [| |exact X]; congruence.
+      * pose proof (H (F_prev_index j)) as X. rewrite HL in X.
+        specialize (X Hc). cbn in X. eapply same_of_in_field; [| |exact X]; congruence.
+    + intros j Hj. pose proof (H (F_sequence j)) as X. rewrite HL in X.
+      assert (Hc : Nat.eqb j idx || (negb (ht_acp ht) && negb (ht_none ht) && negb (ht_single ht)) = true).
+      { destruct Hj as [Hj | [Ha Hk]]; [rewrite Hj, Nat.eqb_refl; reflexivity|].
+        unfold keep_seq in Hk. rewrite Ha. rewrite <- andb_assoc, Hk. apply orb_true_r. }
+      specialize (X Hc). cbn in X. eapply same_of_in_field; [| |exact X]; congruence.
+  - intros ->. pose proof (H F_spent_amount eq_refl) as X. cbn in X. congruence.
+  - destruct (ht_none ht) eqn:Hn; [exact I|]. destruct (ht_single ht) eqn:Hs.
+    + pose proof (H F_single_has_output) as X. unfold committed in X. rewrite Hs in X. specialize (X eq_refl).
+      unfold get in X. assert (X' : has_output idx c = has_output idx c') by (unfold has_output; congruence).
+      clear X. split; [exact X'|].
+      pose proof (H (F_out_amount idx)) as X1. pose proof (H (F_out_script idx)) as X2.
+      unfold committed in X1, X2. rewrite Hn, Hs, Nat.eqb_refl in X1, X2.
+      destruct (has_output idx c) eqn:Ho.
+      * apply out_fields_nth; [exact (X1 eq_refl)|exact (X2 eq_refl)].
+      * symmetry in X'. unfold has_output in Ho, X'. apply Nat.ltb_ge in Ho, X'.
+        apply nth_error_None in Ho, X'. now rewrite Ho, X'.
+    + apply nth_error_ext. intros k.
+      pose proof (H (F_out_amount k)) as X1. pose proof (H (F_out_script k)) as X2.
+      unfold committed in X1, X2. rewrite Hn, Hs in X1, X2.
+      apply out_fields_nth; [exact (X1 eq_refl)|exact (X2 eq_refl)].
+Qed.
+
+Lemma none_single_excl ht : ht_none ht = true -> ht_single ht = false.
+Proof. unfold ht_none, ht_single. intros H. apply N.eqb_eq in H. rewrite H. reflexivity. Qed.
+
+Lemma facts_agree sv ht idx c c' : facts sv ht idx c c' -> agree sv ht idx c c'.
+Proof.
+  intros [FL FA FO] fl Hc.
+  assert (HLv : forall b, committed sv ht idx (has_output idx c) fl = live sv ht idx c && b ->
+                live sv ht idx c = true /\ b = true).
+  { intros b E. rewrite E in Hc. apply andb_prop in Hc. exact Hc. }
+  destruct fl.
+  - destruct (HLv true) as [L _]; [unfold committed, live; now rewrite andb_true_r|].
+    destruct (FL L) as (E & _). cbn. now rewrite E.
+  - destruct (HLv true) as [L _]; [unfold committed, live; now rewrite andb_true_r|].
+    destruct (FL L) as (_ & E & _). cbn. now rewrite E.
+  - destruct (HLv (negb (ht_acp ht))) as [L B]; [reflexivity|].
+    destruct (FL L) as (_ & _ & _ & E & _). cbn. rewrite E; [reflexivity|]. now destruct (ht_acp ht).
+  - unfold committed in Hc. apply andb_prop in Hc. destruct Hc as [Hn Hs].
+    apply negb_true_iff in Hn, Hs. rewrite Hn, Hs in FO. cbn. now rewrite FO.
+  - unfold committed in Hc. pose proof Hc as Hs.
+    destruct (ht_none ht) eqn:Hn; [apply none_single_excl in Hn; congruence|].
+    rewrite Hs in FO. destruct FO as [E _]. unfold get. unfold has_output in E. now rewrite E.
+  - destruct (HLv (Nat.eqb j idx || negb (ht_acp ht))) as [L B]; [reflexivity|].
+    destruct (FL L) as (_ & _ & _ & _ & E & _). cbn. apply in_field_same. apply E.
+    apply orb_prop in B. destruct B as [B|B]; [left; now apply Nat.eqb_eq|right; now apply negb_true_iff].
+  - destruct (HLv (Nat.eqb j idx || negb (ht_acp ht))) as [L B]; [reflexivity|].
+    destruct (FL L) as (_ & _ & _ & _ & E & _). cbn. apply in_field_same. apply E.
+    apply orb_prop in B. destruct B as [B|B]; [left; now apply Nat.eqb_eq|right; now apply negb_true_iff].
+  - destruct (HLv (Nat.eqb j idx || (negb (ht_acp ht) && negb (ht_none ht) && negb (ht_single ht)))) as [L B]; [reflexivity|].
+    destruct (FL L) as (_ & _ & _ & _ & _ & E). cbn. apply in_field_same. apply E.
+    apply orb_prop in B. destruct B as [B|B]; [left; now apply Nat.eqb_eq|right].
+    unfold keep_seq. rewrite <- andb_assoc in B. apply andb_prop in B. destruct B as [B1 B2].
+    split; [now apply negb_true_iff|exact B2].
+  - unfold committed in Hc. cbn. unfold out_field.
+    destruct (ht_none ht); [discriminate|]. destruct (ht_single ht).
+    + apply andb_prop in Hc. destruct Hc as [Hk _]. apply Nat.eqb_eq in Hk. subst k.
+      destruct FO as [_ E]. now rewrite E.
+    + now rewrite FO.
+  - unfold committed in Hc. cbn. unfold out_field.
+    destruct (ht_none ht); [discriminate|]. destruct (ht_single ht).
+    + apply andb_prop in Hc. destruct Hc as [Hk _]. apply Nat.eqb_eq in Hk. subst k.
+      destruct FO as [_ E]. now rewrite E.
+    + now rewrite FO.
+  - destruct (HLv true) as [L _]; [unfold committed, live; now rewrite andb_true_r|].
+    destruct (FL L) as (_ & _ & E & _). cbn. now rewrite E.
+  - unfold committed in Hc. destruct sv; [discriminate|]. cbn. now rewrite (FA eq_refl).
+  - discriminate Hc.
+  - discriminate Hc.
+Qed.
+
+Lemma agree_iff_facts sv ht idx c c' : agree sv ht idx c c' <-> facts sv ht idx c c'.
+Proof. split; [apply agree_facts|apply facts_agree]. Qed.
+
+(* ---- 4. legacy: the temporary transaction in closed form ---------------------------------------------------- *)
+Lemma mapi_ext_fun {A B} (f g : nat -> A -> B) i l : (forall k x, f k x = g k x) -> mapi f i l = mapi g i l.
+Proof. intros H. revert i; induction l as [|x l IH]; intros i; cbn; [reflexivity|]. now rewrite H, IH. Qed.
+
+Lemma mapi_mapi {A B C} (f : nat -> A -> B) (g : nat -> B -> C) i l :
+  mapi g i (mapi f i l) = mapi (fun k x => g k (f k x)) i l.
+Proof. revert i; induction l as [|x l IH]; intros i; cbn; [reflexivity|]. now rewrite IH. Qed.
+
+Lemma nth_error_mapi {A B} (f : nat -> A -> B) i l j :
+  nth_error (mapi f i l) j = option_map (f (i + j)%nat) (nth_error l j).
+Proof.
+  revert i j; induction l as [|x l IH]; intros i [|j]; cbn; try reflexivity.
+  - now rewrite Nat.add_0_r.
+  - rewrite IH. now rewrite Nat.add_succ_r.
+Qed.
+
+Lemma mapi_length {A B} (f : nat -> A -> B) i l : length (mapi f i l) = length l.
+Proof. revert i; induction l as [|x l IH]; intros i; cbn; [reflexivity|]. now rewrite IH. Qed.
+
+Lemma Forall_mapi {A B} (P : A -> Prop) (Q : B -> Prop) (f : nat -> A -> B) i l :
+  (forall k x, P x -> Q (f k x)) -> Forall P l -> Forall Q (mapi f i l).
+Proof. intros H HF. revert i; induction HF; intros i; cbn; constructor; auto. Qed.
+
+Definition tmp_in (sc : bytes) (idx : nat) (ks : bool) (j : nat) (x : txin) : txin :=
+  mk_txin (ti_hash x) (ti_index x) (if Nat.eqb j idx then sc else []) []
+          (if Nat.eqb j idx || ks then ti_seq x else 0).
+
+Definition tmp_outs (ht : N) (idx : nat) (outs : list txout) : option (list txout) :=
+  if ht_none ht then Some []
+  else if ht_single ht then
+    match nth_error outs idx with None => None | Some o => Some (repeat blank_txout idx ++ [o]) end
+  else Some outs.
+
+Definition tmp_pick (ht : N) (idx : nat) (ins : list txin) : outcome (list txin) :=
+  if ht_acp ht then match nth_error ins idx with Some x => Ret [x] | None => Raise E_INDEX end
+  else Ret ins.
+
+Lemma legacy_tmp_tx_eq t sc idx ht :
+  legacy_tmp_tx t sc idx ht =
+  match tmp_outs ht idx (tx_outs t) with
+  | None => Ret LM_one
+  | Some outs =>
+    match tmp_pick ht idx (mapi (tmp_in sc idx (keep_seq ht)) 0 (tx_ins t)) with
+    | Ret ins => Ret (LM_tx (mk_tx (tx_version t) ins outs (tx_lock t)))
+    | Raise e => Raise e
+    | OutOfFuel => OutOfFuel
+    end
+  end.
+Proof.
+  unfold legacy_tmp_tx, tmp_outs, tmp_pick, keep_seq.
+  change (is_acp ht) with (ht_acp ht).
+  change (N.land ht gen06_mask_legacy =? gen06_sighash_none) with (ht_none ht).
+  change (N.land ht gen06_mask_legacy =? gen06_sighash_single) with (ht_single ht).
+  assert (Z : forall l, mapi (zero_other_sequence idx) 0 (mapi (tx_in_for_idx sc idx) 0 l) = mapi (tmp_in sc idx false) 0 l).
+  { intros l. rewrite mapi_mapi. apply mapi_ext_fun. intros k x.
+    unfold zero_other_sequence, tx_in_for_idx, tmp_in. destruct (Nat.eqb k idx); reflexivity. }
+  assert (K : forall l, mapi (tx_in_for_idx sc idx) 0 l = mapi (tmp_in sc idx true) 0 l).
+  { intros l. apply mapi_ext_fun. intros k x. unfold tx_in_for_idx, tmp_in.
+    destruct (Nat.eqb k idx); reflexivity. }
+  destruct (ht_none ht) eqn:Hn.
+  - rewrite Z. cbn [negb andb]. destruct (ht_acp ht); [|reflexivity].
+    destruct (nth_error _ idx); reflexivity.
+  - destruct (ht_single ht) eqn:Hs.
+    + destruct (nth_error (tx_outs t) idx); [|reflexivity]. rewrite Z. cbn [negb andb].
+      destruct (ht_acp ht); [|reflexivity]. destruct (nth_error _ idx); reflexivity.
+    + rewrite K. cbn [negb andb]. destruct (ht_acp ht); [|reflexivity]. destruct (nth_error _ idx); reflexivity.
+Qed.
+
+Lemma tmp_outs_live ht idx c l :
+  tmp_outs ht idx (tx_outs (sc_tx c)) = Some l -> live SV_legacy ht idx c = true.
+Proof.
+  unfold tmp_outs, live, has_output. destruct (ht_none ht) eqn:Hn.
+  - apply none_single_excl in Hn. now rewrite Hn.
+  - destruct (ht_single ht); [|reflexivity].
+    destruct (nth_error _ idx) eqn:E; [|discriminate]. intros _.
+    assert (idx < length (tx_outs (sc_tx c)))%nat by (apply nth_error_Some; congruence).
+    apply Nat.ltb_lt in H. now rewrite H.
+Qed.
+
+Lemma tmp_outs_facts ht idx c c' :
+  facts SV_legacy ht idx c c' -> tmp_outs ht idx (tx_outs (sc_tx c)) = tmp_outs ht idx (tx_outs (sc_tx c')).
+Proof.
+  intros [_ _ FO]. unfold tmp_outs. destruct (ht_none ht); [reflexivity|]. destruct (ht_single ht).
+  - destruct FO as [_ E]. now rewrite E.
+  - now rewrite FO.
+Qed.
+
+(* the inputs of the temporary transaction agree wherever the facts say so *)
+Lemma tmp_in_same ht idx c c' j :
+  sc_code c = sc_code c' ->
+  same_at ti_hash c c' j -> same_at ti_index c c' j ->
+  (Nat.eqb j idx || keep_seq ht = true -> same_at ti_seq c c' j) ->
+  nth_error (mapi (tmp_in (sc_code c) idx (keep_seq ht)) 0 (tx_ins (sc_tx c))) j
+  = nth_error (mapi (tmp_in (sc_code c') idx (keep_seq ht)) 0 (tx_ins (sc_tx c'))) j.
+Proof.
+  intros Esc Eh Ei Es. rewrite !nth_error_mapi. cbn [plus]. unfold same_at in *.
+  destruct (nth_error (tx_ins (sc_tx c)) j) as [x|], (nth_error (tx_ins (sc_tx c')) j) as [x'|];
+    cbn in *; try discriminate; [|reflexivity].
+  injection Eh as Eh. injection Ei as Ei. unfold tmp_in. rewrite Eh, Ei, Esc. f_equal. f_equal.
+  destruct (Nat.eqb j idx || keep_seq ht); [|reflexivity]. specialize (Es eq_refl). now injection Es.
+Qed.
+
+Lemma legacy_invariant ht idx c c' :
+  facts SV_legacy ht idx c c' ->
+  legacy_tmp_tx (sc_tx c) (sc_code c) idx ht = legacy_tmp_tx (sc_tx c') (sc_code c') idx ht.
+Proof.
+  intros F. rewrite !legacy_tmp_tx_eq. rewrite <- (tmp_outs_facts _ _ _ _ F).
+  destruct (tmp_outs ht idx (tx_outs (sc_tx c))) as [l|] eqn:TO; [|reflexivity].
+  destruct F as [FL _ _]. destruct (FL (tmp_outs_live _ _ _ _ TO)) as (Ev & El & Esc & Elen & Eho & Eseq).
+  rewrite Ev, El.
+  assert (X : forall j, j = idx \/ ht_acp ht = false ->
+    nth_error (mapi (tmp_in (sc_code c) idx (keep_seq ht)) 0 (tx_ins (sc_tx c))) j
+    = nth_error (mapi (tmp_in (sc_code c') idx (keep_seq ht)) 0 (tx_ins (sc_tx c'))) j).
+  { intros j Hj. destruct (Eho j Hj) as [Eh Ei]. apply tmp_in_same; auto.
+    intros B. apply Eseq. apply orb_prop in B. destruct B as [B|B]; [left; now apply Nat.eqb_eq|].
+    destruct Hj as [Hj|Hj]; [now left|right; auto]. }
+  unfold tmp_pick. destruct (ht_acp ht) eqn:Ha.
+  - rewrite (X idx (or_introl eq_refl)). reflexivity.
+  - rewrite (nth_error_ext _ _ (fun j => X j (or_intror eq_refl))). reflexivity.
+Qed.
